@@ -67,6 +67,22 @@ ConfigMustWarn(c, sel) ==
   \/ (c.order # <<>> /\ c.mode = <<1>> /\ MustWarn("order", c.order, TRUE, sel))
   \/ ((c.bsh # <<>> \/ c.mode # <<>> \/ ConfigSendsData(c) \/ \E q \in {"plen", "amp", "offs", "skew"} : c[q] # <<>>) /\ ChWarn(sel))
 
+\* ---- instrument settings: what the (simulated) instrument holds per <<verb, channel>>, and the queries that read it back
+SettingVerbs == {Verb[q] : q \in DOMAIN Verb} \cup FlagVerbs \cup {"PATT:BSH"}
+DefaultSetting(verb) == CASE verb = "FREQ" -> 100 [] verb = "VOLT:POS" -> 10 [] verb = "PATT:LENG" -> 2 [] verb = "PATT:PLEN" -> 7 [] OTHER -> 0
+Setting(cfg, verb, ch) == IF <<verb, ch>> \in DOMAIN cfg THEN cfg[<<verb, ch>>] ELSE DefaultSetting(verb)
+RECURSIVE ApplyFrom(_, _, _)
+ApplyFrom(cfg, cmdseq, i) ==
+  IF i > Len(cmdseq) THEN cfg
+  ELSE LET c == cmdseq[i] IN
+       IF c.verb \in SettingVerbs THEN ApplyFrom((<<c.verb, c.ch>> :> c.val) @@ cfg, cmdseq, i + 1) ELSE ApplyFrom(cfg, cmdseq, i + 1)
+ApplySettings(cfg, cmdseq) == ApplyFrom(cfg, cmdseq, 1)
+\* get_<quantity>(CHs): one query per normalised channel, values as held by the instrument (frequency is global: channel 0)
+GetVerb(q) == IF q \in DOMAIN Verb THEN Verb[q] ELSE q
+GetChannels(q, sel) == IF q = "freq" THEN <<0>> ELSE Channels(sel)
+GetVals(cfg, q, sel) == LET chs == GetChannels(q, sel) IN [i \in 1..Len(chs) |-> Setting(cfg, GetVerb(q), chs[i])]
+GetQueries(q, sel) == LET chs == GetChannels(q, sel) IN [i \in 1..Len(chs) |-> [verb |-> GetVerb(q) \o "?", ch |-> chs[i], val |-> 0]]
+
 \* ---- data blocks
 Digits(n) == IF n < 10 THEN 1 ELSE IF n < 100 THEN 2 ELSE IF n < 1000 THEN 3 ELSE IF n < 10000 THEN 4 ELSE IF n < 100000 THEN 5 ELSE IF n < 1000000 THEN 6 ELSE 7
 RECURSIVE Blocks(_, _, _)
